@@ -9,6 +9,9 @@ pub mod c05;
 pub mod c06;
 pub mod c07;
 pub mod c08;
+pub mod c10;
+pub mod event;
+pub mod c12;
 pub mod c18;
 
 pub fn dispatch(args: &Args) -> i32 {
@@ -21,6 +24,8 @@ pub fn dispatch(args: &Args) -> i32 {
         "C06" => c06::run(args),
         "C07" => c07::run(args),
         "C08" => c08::run(args),
+        "C10" => c10::run(args),
+        "C12" => c12::run(args),
         "C18" => c18::run(args),
         p => {
             eprintln!("agv: no check for property {p}");
